@@ -44,6 +44,11 @@ impl std::io::Write for RecW {
     fn flush(&mut self) -> std::io::Result<()> {
         Ok(())
     }
+    /// counts the write without rendering the arguments (symbolic formatting is not explorable)
+    fn write_fmt(&mut self, _args: std::fmt::Arguments<'_>) -> std::io::Result<()> {
+        unsafe { WRITES += 1 };
+        Ok(())
+    }
 }
 pub(crate) struct RecT;
 impl crate::time_provider::TimeProvider for RecT {
@@ -151,4 +156,77 @@ pub(crate) fn canonical(x: &LazyBigint) -> bool {
         LazyBigint::Short(_) => true,
         LazyBigint::Long(b) => b.0 > i64::MAX as i128 || b.0 < i64::MIN as i128,
     }
+}
+
+// ---- runtimes with recording doubles ------------------------------------------------------------------------
+pub(crate) type RtRec = RTCell<RecW, RecR, RecT>;
+pub(crate) fn runtime_rec(limits: RuntimeLimits) -> RtRec {
+    limits.to_runtime(RecW, RecT)
+}
+pub(crate) fn is_permission_error<X>(r: &Result<X, crate::runtime_violation::RuntimeViolation>, id: &'static str) -> bool {
+    match r {
+        Err(crate::runtime_violation::RuntimeViolation::PermissionError(got)) => got.len() == id.len() && got.as_ptr() == id.as_ptr(),
+        _ => false,
+    }
+}
+
+/// stands in for RootCompilationScope::add_func in native-call harnesses: keeps the registered XStaticFunction (so the
+/// harness calls the builtin's real closure) and skips name/overload bookkeeping (HashMaps, interner), which the
+/// harness does not use.  The spec is leaked, not dropped (recursive drop glue of XType is not explorable).
+pub(crate) fn capture_add_func<W, R, T>(
+    this: &mut RootCompilationScope<W, R, T>,
+    _name: &'static str,
+    spec: crate::xtype::XFuncSpec,
+    func: XStaticFunction<W, R, T>,
+) -> Result<(), crate::compile_err::CompilationError> {
+    std::mem::forget(spec);
+    this.scope.declarations.push(Declaration::Function { cell_idx: 0, func });
+    Ok(())
+}
+
+// ---- tripwires and the restricted evaluator (DESIGN 2.3) -----------------------------------------------------
+pub(crate) fn trip_to_function<W: 'static, R: 'static, T: 'static>(
+    _this: &XStaticFunction<W, R, T>,
+    _closure: &RuntimeScope<'_, W, R, T>,
+    _rt: RTCell<W, R, T>,
+) -> crate::root_runtime_scope::RuntimeResult<crate::xvalue::XFunction<W, R, T>> {
+    panic!("tripwire: XStaticFunction::to_function must be unreachable in this harness")
+}
+/// evaluator restricted to pre-evaluated expressions; anything else is a tripwire
+pub(crate) fn mini_eval<'a, W: 'static, R: 'static, T: 'static>(
+    _this: &RuntimeScope<'a, W, R, T>,
+    expr: &XExpr<W, R, T>,
+    _rt: RTCell<W, R, T>,
+    _tail: bool,
+) -> crate::root_runtime_scope::RuntimeResult<TailedEvalResult<W, R, T>>
+where
+    'a: 'a,
+{
+    match expr {
+        XExpr::Dummy(v) => Ok(TailedEvalResult::from(v.clone())),
+        _ => panic!("tripwire: eval of a non-Dummy expression must be unreachable in this harness"),
+    }
+}
+
+/// `Rc::drop_slow` / `Arc::drop_slow` run when the last strong reference goes away; stubbing them by no-ops leaks the
+/// contents instead of running their (recursive, for XValue/XExpr/XType) drop glue.  Sound for every property that does
+/// not depend on the side effects of Drop; never used in the C09 accounting harnesses.
+pub(crate) fn leak_rc<T: ?Sized, A: std::alloc::Allocator>(_x: &mut Rc<T, A>) {}
+pub(crate) fn leak_arc<T: ?Sized, A: std::alloc::Allocator>(_x: &mut std::sync::Arc<T, A>) {}
+
+/// a harness that calls one native obtained through its real `add_*` registration function with pre-evaluated arguments
+#[macro_export]
+macro_rules! native_harness {
+    ($(#[$m:meta])* fn $name:ident() $body:block) => {
+        #[kani::proof]
+        #[kani::stub(std::collections::hash_map::RandomState::new, crate::verif_common::stub_rs)]
+        #[kani::stub(crate::root_compilation_scope::RootCompilationScope::identifier, crate::verif_common::stub_identifier)]
+        #[kani::stub(crate::root_compilation_scope::RootCompilationScope::add_func, crate::verif_common::capture_add_func)]
+        #[kani::stub(crate::xexpr::XStaticFunction::to_function, crate::verif_common::trip_to_function)]
+        #[kani::stub(crate::runtime_scope::RuntimeScope::eval, crate::verif_common::mini_eval)]
+        #[kani::stub(std::rc::Rc::drop_slow, crate::verif_common::leak_rc)]
+        #[kani::stub(std::sync::Arc::drop_slow, crate::verif_common::leak_arc)]
+        $(#[$m])*
+        fn $name() $body
+    };
 }
